@@ -814,6 +814,10 @@ func (e *SpecEnv) trCall(x *ECall) Val {
 		return Val{T: c.fisNaN(e.tr(x.Args[0]).T), Ty: tBool}
 	case "isInf":
 		return Val{T: c.fisInf(e.tr(x.Args[0]).T, "0"), Ty: tBool}
+	case "appendOf":
+		// appendOf(c, a, b): c is the value returned by append(a, b...) (a fact recorded by the engine)
+		c.declOnce("appendOf", "(declare-fun appendOf (Slice Slice Slice) Bool)")
+		return Val{T: fmt.Sprintf("(appendOf %s %s %s)", e.tr(x.Args[0]).T, e.tr(x.Args[1]).T, e.tr(x.Args[2]).T), Ty: tBool}
 	case "sameObj":
 		// both slices/pointers refer to the same allocated object (backing array)
 		a, b := e.tr(x.Args[0]), e.tr(x.Args[1])
